@@ -9,7 +9,7 @@
     challenge handler answered; [None]: the wrapped handler ran), [alpn_get] = the TLS-ALPN
     branch of GetCertificate.  [sf] = KeyBuilder.Safe, [feq] = simple case folding of two code
     points (strings.EqualFold), [issuers] = the issuer keys of Config.Issuers: all arbitrary. *)
-From CM Require Import Lib.Str Gen.Consts Safe.Model Challenge.Assoc Challenge.Model Challenge.Proofs.
+From CM Require Import Lib.Str Gen.Consts Safe.Model Challenge.Assoc Challenge.Model Challenge.Proofs Challenge.Tie.
 
 (** Key authorization is written only for GET of exactly <base>/<token> with a Host that folds to
     the identifier of a challenge that is pending, and it is that challenge's key authorization.
